@@ -80,6 +80,10 @@ def gen_leaf(rng, nvars, falsy, vocab):
                 ('lit', rng.choice(['', 'a', 'b'] if falsy else ['a', 'b', 'c'])))
     if k == 'truth':
         return ('truth', ('attr', rng.randrange(nvars), 'flag'))
+    if k == 'truthy':
+        # a bare attribute / index / call expression of any type as a condition: Python truthiness of its value
+        v = rng.randrange(nvars)
+        return ('truth', rng.choice([('attr', v, 'tags'), ('attr', v, 'name'), ('attr', v, 'size'), ('index', v, 'k')]))
     if k == 'call':
         return ('truth', ('call', rng.randrange(nvars), 'big'))
     if k == 'contains':
@@ -231,12 +235,14 @@ def same_list_by_identity(a, b):
 
 
 # ------------------------------------------------------------------ flatten / concatenate (C16, C17)
-def run_flatten(dom, with_cond, select_parent, cond=None):
-    """set_of([x?, flatten(x.tags)], cond?) against UNNEST semantics"""
+def run_flatten(dom, with_cond, select_parent, cond=None, element_first=False):
+    """set_of([x?, flatten(x.tags)], cond?) against UNNEST semantics (the parent listed before or after the element)"""
     with symbolic_mode():
         x = let(type_=Item, domain=dom)
         t = flatten(x.tags)
         sel = ([x] if select_parent else []) + [t]
+        if element_first:
+            sel = list(reversed(sel))
         props = [build(cond, [x])] if with_cond else []
         q = an(set_of(sel, *props))
     rows = list(q.evaluate())
